@@ -12,6 +12,8 @@ matched), on a fresh shared in-memory store, every run:
     model with an element only it contributed (listed first), a shared one carrying both kinds of delegation, and a foreign one.
     A re-ordered, dropped, added or re-addressed call changes the generated `plans`; `Model/CbmStore.lean` interprets the
     generated plans (that is what the driver runs) and `Proofs/C14.lean` proves `plans = modelPlans`.
+    Steps whose order cannot be observed (rewrite_delegations / provenance stamp on the invisible temporary graph; the three
+    per-element writes of unmerge_adm) are put in a fixed order, so that swapping them is not reported.
     A mutating call the vocabulary does not know, per-node calls that differ between nodes or are not contiguous, an
     unexpected argument (merge_properties, a provenance value that is not `[adm id]` / `old + [adm id]`) is an ExtractionError.
   * tables - what `rewrite_delegations`, `_update_node_delegations`, the delegation part and the provenance part of
@@ -235,7 +237,10 @@ class Prober:
     def merge_plan(self, tr):
         X = {"id": GX, "nodes": [_node("x1", cd=_cap("primary")), _node("s1", ld=_lab("primary")), _node("s2")],
              "edges": [["x1", "s1", {"Class": "connects"}], ["s1", "s2", {"Class": "connects"}]]}
-        Y = {"id": GY, "nodes": [_node("s1"), _node("s2", cd=_cap("d2")), _node("y1", ld=_lab("d2"))],
+        # the second model describes the common elements differently (properties the combined model's copy does not have)
+        Y = {"id": GY, "nodes": [_node("s1", Labels=json.dumps({"vlan_range": "5-6"}), Capacities=json.dumps({"unit": 3}), Model="y",
+                                       StitchNode="true"),
+                                 _node("s2", cd=_cap("d2"), Site="Y"), _node("y1", ld=_lab("d2"))],
              "edges": [["s1", "s2", {"Class": "connects", "Name": "y"}], ["s2", "y1", {"Class": "connects"}]]}
         Z = {"id": GZ, "nodes": [_node("z1"), _node("z2")], "edges": [["z1", "z2", {"Class": "has"}]]}
         imp, src, cbm = self.session([X, Y, Z])
@@ -345,6 +350,11 @@ class Prober:
                 raise ExtractionError("unexpected per-element call of unmerge_adm: %s" % t)
         if sorted(plan) != [".deleg false", ".deleg true", ".provenance"]:
             raise ExtractionError("unmerge_adm on a shared element with both delegations makes the calls %r" % (s1,))
+        # The three per-element steps write different properties and only the delegation steps can raise - on a delegation with
+        # more than one entry, which no combined model built by merges holds: their order is not observable, so it is not part
+        # of the plan (the observed order goes into the report only).
+        self.observed_unmerge_order = list(plan)
+        plan = [".provenance", ".deleg true", ".deleg false"]
         if any(t.startswith("prov:") for t in x1):
             raise ExtractionError("unmerge_adm rewrites the provenance of an element it deletes")
         dels = [i for i, (k, nid, _) in enumerate(st) if k == "d"]
@@ -478,6 +488,20 @@ class Prober:
         return rekey, take, unm, prov, policy
 
 
+def canon_commuting(plan):
+    """rewrite_delegations and the provenance stamp on the (invisible) temporary graph commute: a fixed order for them"""
+    out, run = [], []
+    for t in plan + [None]:
+        if t is not None and (t.startswith(".rewriteDelegations .tmp") or t.startswith(".setProvenance .tmp")):
+            run.append(t)
+        else:
+            out.extend(sorted(run))
+            run = []
+            if t is not None:
+                out.append(t)
+    return out
+
+
 def lean_deleg(v):
     if v is None:
         return ".absent"
@@ -507,6 +531,8 @@ def generate():
     finally:
         tr.uninstall()
         p.L.fresh_store()
+    observed = {"mergeEmpty": list(plan_empty), "mergeNonEmpty": list(plan_non), "unmergeNode": getattr(p, "observed_unmerge_order", None)}
+    plan_empty, plan_non = canon_commuting(plan_empty), canon_commuting(plan_non)
     rekey, take, unm, prov, policy = p.tables()
     names = {}
     for k in ("labProp", "capProp", "provProp", "provField", "graphIdProp"):
@@ -557,4 +583,4 @@ def generate():
     return {"changed": changed, "names": names, "requireAdm": require, "mergeEmpty": plan_empty, "mergeNonEmpty": plan_non,
             "unmergeNode": un_plan, "unmergeDeleteAfter": del_after, "snapshot": snap, "rollback": roll,
             "rows": {"rekey": len(dedup(rekey)), "take": len(dedup(take)), "unmergeDeleg": len(dedup(unm)), "prov": len(prov)},
-            "mergeNodesPolicy": dict(policy)}
+            "mergeNodesPolicy": dict(policy), "observed_order": observed}
